@@ -77,6 +77,7 @@ var indexVariants = []struct {
 	{hydrapb.IndexType_CREATION_TIME, hydrapb.OrderType_ASC},
 	{hydrapb.IndexType_VALUE_STRING, hydrapb.OrderType_ASC},
 	{hydrapb.IndexType_VALUE_INT64, hydrapb.OrderType_DESC},
+	{hydrapb.IndexType_EXPIRATION_TIME, hydrapb.OrderType_ASC},
 }
 
 // execReader runs the bulk readers (C10). Responses are not part of the
